@@ -300,7 +300,7 @@ func vfGenC08(t *rapid.T) vfCaseC08 {
 	e := &vfC08Entries[ei]
 	c := vfCaseC08{Entry: e.Name}
 	if e.Part == "frame" {
-		c.Chunk = rapid.SampledFrom([]int{0, 0, 1, 3, 4, 5, 1000}).Draw(t, "chunk")
+		c.Chunk = rapid.SampledFrom([]int{0, 0, 1, 3, 4, 5, 1000, -1, -2}).Draw(t, "chunk")
 	}
 	mode := rapid.IntRange(0, 11).Draw(t, "mode")
 	if mode == 0 {
@@ -449,7 +449,20 @@ func vfC08Call(ctx *vfCtx, e *vfC08Entry, c *vfCaseC08) (outcome string) {
 
 // vfC08Frame checks the framing rules for the stream readers.
 func vfC08Frame(ctx *vfCtx, e *vfC08Entry, c *vfCaseC08) string {
-	r := &vfChunkReader{b: c.Input, chunk: c.Chunk}
+	// the kind of reader is part of the input: a plain io.Reader handing out at most Chunk bytes per call, or
+	// (Chunk -1 / -2) a *bytes.Buffer / *bytes.Reader, which offer more methods than Read (seed C08-e)
+	var r io.Reader
+	cr := &vfChunkReader{b: c.Input, chunk: c.Chunk}
+	taken := func() int { return cr.taken }
+	r = cr
+	switch c.Chunk {
+	case -1:
+		bb := bytes.NewBuffer(append([]byte{}, c.Input...))
+		r, taken = bb, func() int { return len(c.Input) - bb.Len() }
+	case -2:
+		br := bytes.NewReader(append([]byte{}, c.Input...))
+		r, taken = br, func() int { return len(c.Input) - br.Len() }
+	}
 	var typ byte
 	var payload []byte
 	var err error
@@ -493,16 +506,16 @@ func vfC08Frame(ctx *vfCtx, e *vfC08Entry, c *vfCaseC08) string {
 		if err == nil {
 			fail("oversize-accepted", "accepted a frame of declared length %d", declared)
 		}
-		if r.taken != 4 {
-			fail("oversize-body-read", "read %d bytes of a refused %d-byte frame (want exactly the 4 length bytes)", r.taken, declared)
+		if taken() != 4 {
+			fail("oversize-body-read", "read %d bytes of a refused %d-byte frame (want exactly the 4 length bytes)", taken(), declared)
 		}
 		return "error"
 	case declared < minLen:
 		if err == nil {
 			fail("undersize-accepted", "accepted a frame of declared length %d", declared)
 		}
-		if r.taken != 4 {
-			fail("undersize-body-read", "read %d bytes after refusing length %d", r.taken, declared)
+		if taken() != 4 {
+			fail("undersize-body-read", "read %d bytes after refusing length %d", taken(), declared)
 		}
 		return "error"
 	case uint64(len(in)-4) < uint64(declared):
@@ -514,8 +527,8 @@ func vfC08Frame(ctx *vfCtx, e *vfC08Entry, c *vfCaseC08) string {
 	// complete frame
 	if e.Name == "X.req.ReadFrom" {
 		// the request decoder may legitimately reject the body; framing facts only
-		if r.taken != int(4+declared) {
-			fail("consumed", "consumed %d bytes of a complete %d-byte frame", r.taken, 4+declared)
+		if taken() != int(4+declared) {
+			fail("consumed", "consumed %d bytes of a complete %d-byte frame", taken(), 4+declared)
 		}
 		if err != nil {
 			return "error"
@@ -528,8 +541,8 @@ func vfC08Frame(ctx *vfCtx, e *vfC08Entry, c *vfCaseC08) string {
 	if err != nil {
 		fail("complete-rejected", "rejected a complete frame of length %d: %v", declared, err)
 	}
-	if r.taken != int(4+declared) {
-		fail("consumed", "consumed %d bytes of a complete %d-byte frame", r.taken, 4+declared)
+	if taken() != int(4+declared) {
+		fail("consumed", "consumed %d bytes of a complete %d-byte frame", taken(), 4+declared)
 	}
 	if typ != in[4] {
 		fail("type", "type %d, frame says %d", typ, in[4])
@@ -570,6 +583,10 @@ func vfRunC08Sys(ctx *vfCtx, c vfCaseC08Sys) {
 		ctx.Class("entry=" + e.Name)
 		for cut := 0; cut <= len(in); cut++ {
 			run(vfCaseC08{Entry: e.Name, Input: append([]byte{}, in[:cut]...), Flags: flags, Mut: "truncate"})
+			if e.Part == "frame" {
+				run(vfCaseC08{Entry: e.Name, Input: append([]byte{}, in[:cut]...), Flags: flags, Mut: "truncate", Chunk: -1})
+				run(vfCaseC08{Entry: e.Name, Input: append([]byte{}, in[:cut]...), Flags: flags, Mut: "truncate", Chunk: 1})
+			}
 		}
 		sort.Ints(lens)
 		for _, off := range lens {
